@@ -171,5 +171,5 @@ def run(ctx):
             return "the interpreted source and the implementation differ on %s: impl %s, interpreter %s" % (c["meta"]["fn"], io[:80], mo[:80])
         return None
     core.run_stream(ctx, core.Stream("interpreted source (Gen/Source.v via PySrc.run_prog) vs implementation: 15 translated functions of common.py x the values above",
-                                     scases, rel_src, None, nontrivial=lambda c, i, m: m != "U"))
+                                     scases, rel_src, None, nontrivial=lambda c, i, m: m != "U", mismatch_kind="tie"))
     ctx.assumptions = ["strings range over all of Unicode in the theorems; the correspondence enumerates the embeddings listed in the stream names"]
